@@ -405,6 +405,11 @@ def check_plan(ctx):
         v = n.target.id
         if any(norm.entails(g.facts_at(c), norm.mk_cmp("==", "0", v)) for c in completed):
             cd = n
+        # `<= 0` / `< 1` is the same test: the count-down starts at the planned tick count padded to >= 1 (next obligations), goes down by one per
+        # tick and is tested right after the decrement, so the first tick in which it is `<= 0` is the tick in which it is 0
+        elif any(norm.entails(g.facts_at(c), norm.nnf(ast.parse(t_, mode="eval").body)) for c in completed for t_ in (f"{v} <= 0", f"{v} < 1")) \
+                and all(g.dominates(n, c) for c in completed):
+            cd = n
     ctx.ob(6, "K2", "an operator is COMPLETED exactly on its last tick: a per-operator count-down is decremented once per tick and COMPLETED is taken when it is 0",
            cd is not None, f, completed[0] if completed else tl, construct="count-down == 0 guards COMPLETED",
            detail=f"decrements in the tick loop: {[stmt_text(n) for n in decs]}; facts at COMPLETED: {[sorted(norm.show(x) for x in g.facts_at(c)) for c in completed]}")
@@ -602,8 +607,10 @@ def check_tick_body(ctx, sh):
             v = cd.target.id
             nz = norm.mk_cmp("!=", "0", v)
 
-            def edge_ok(a, b, lab, nz=nz):
-                return not (isinstance(lab, tuple) and lab[0] == "cond" and nz in norm.atoms_true(lab[1]))
+            nzs = [nz] + [norm.nnf(ast.parse(t_, mode="eval").body) for t_ in (f"{v} > 0", f"{v} >= 1")]     # what the false branch of `== 0` / `<= 0` / `< 1` says
+
+            def edge_ok(a, b, lab, nzs=nzs):
+                return not (isinstance(lab, tuple) and lab[0] == "cond" and any(z in norm.atoms_true(lab[1]) for z in nzs))
             skipc = g.path_avoiding(cid, ry, {g.node_of(c).id}, edge_ok=edge_ok)
             ctx.ob(6, "K2", "whenever the count-down reaches 0 the operator is completed in that tick", skipc is None, f, c, construct="completion completeness",
                    detail="no path with count-down == 0 skips COMPLETED" if skipc is None else g.describe_path(skipc))
